@@ -5,7 +5,13 @@ What is run on the REAL code
     between Memories and whose concrete mapping is generated here (model part),
   * `Spec.evaluate_mapping()` on hand-written two-Einsum mappings in which a Toll is / is not the
     outermost holder of the tensor shared by the two Einsums (holder part), and
-  * `Spec.map_workload_to_arch()` on tiny multi-Einsum workloads on architectures with Tolls (mapper part).
+  * `Spec.map_workload_to_arch()` on tiny multi-Einsum workloads on architectures with Tolls (mapper part), with the
+    default mapper settings and with the settings that change how storage / Toll nodes are ordered
+    (force_memory_hierarchy_order off, prioritize_reuse_of_unfused_tensors, ...; see MAPPER_OPTION_SETS), and
+  * `Spec.map_workload_to_arch()` restricted to ONE pmapping template at a time (the private setting
+    spec.mapper._only_output_pmapping_with_index, read by make_pmapping_templates) for a tiny single-Einsum
+    workload on architectures with a Toll below two Memories (template part): a badly placed Toll node
+    cannot lose against a well placed one there, every template's best mapping is returned and inspected.
 
 What it is compared with (written here; nothing of the repository is used for a required value)
   * crossing counts obtained by WALKING the loop nest: for a tensor T that a Toll node holds, the holder
@@ -28,6 +34,11 @@ What it is compared with (written here; nothing of the repository is used for a 
     hand-written two-Einsum mapping) the first holder of a tensor used by several Einsums is not a Toll;
     evaluate_mapping must therefore not return a result for a mapping that breaks the rule, and must
     return one for the same mapping with a Memory holding the tensor above the Toll.
+  * position: in every mapping returned by the mapper a Toll node of tensor T sits below every holder node of T
+    whose component is above the Toll in the architecture and above every holder node of T whose component is
+    below it (only then "the values crossing it" are the values exchanged between the level above and the level
+    below), and a Toll declared {keep: All} has a node for every tensor that a Memory above it holds (no tensor
+    bypasses it); the read counts of the returned mapping are then compared with the walk of that mapping.
 """
 import itertools, os, random, tempfile
 from fractions import Fraction
@@ -783,6 +794,79 @@ def _mapper_case(rnd, tier, idx):
     return {"mapper": True, "arch_name": an, "workload_name": wn, "bounds": bounds, "bits": 8, "arch": arch, "metrics": metrics}
 
 
+def _fixed_mapper_case(rnd, an, wn, bounds, options, template):
+    """A mapper case on architecture `an` with mapper settings `options`; template: None (whole mapper) or the value of the
+    private setting spec.mapper._only_output_pmapping_with_index (one pmapping template per Einsum)."""
+    arch = []
+    for kind, name, tensors in MAPPER_ARCHS[an]:
+        c = {"kind": kind, "name": name, "tensors": tensors}
+        if kind == "Toll":
+            c["direction"] = rnd.choice(["up", "down", "up_and_down", "up_and_down", {"Inputs": rnd.choice(DIRS), "Outputs": rnd.choice(DIRS)}])
+            c["energy"] = rnd.choice([1, 50])
+            sc = rnd.choice([None, None, {"kind": "bpa", "bits": 16}, {"kind": "action_bpa", "bits": 4}])
+            if sc:
+                c["scale"] = sc
+        else:
+            c["energy"] = 10 if name == "Main" else 1
+        arch.append(c)
+    arch.append({"kind": "Compute", "name": "MAC"})
+    return {"mapper": True, "arch_name": an, "workload_name": wn, "bounds": dict(bounds), "bits": 8, "arch": arch, "metrics": "ENERGY", "options": dict(options), "template": template}
+
+
+def _workload_vars(wn):
+    vs = []
+    for _, tens, _ in MAPPER_WORKLOADS[wn]:
+        for v in _vars_of(tens):
+            if v not in vs:
+                vs.append(v)
+    return vs
+
+
+# whole-mapper runs with the settings that change the storage / Toll node order (two-level architectures: a run takes seconds)
+OPTION_RUN_ARCHS = ["may_keep_main", "two_tolls", "toll_under_buf", "toll_keeps_intermediates", "no_intermediates_in_main", "toll_may_keep"]
+QUICK_OPTION_SETS = [1, 4, 8, 5, 6, 7, 9]  # indices into MAPPER_OPTION_SETS that are cheap on two Einsums
+
+
+def _option_cases(rnd, tier):
+    n = 4 if tier == "quick" else 30
+    start = rnd.randrange(100)
+    for k in range(n):
+        an = OPTION_RUN_ARCHS[(start + k) % len(OPTION_RUN_ARCHS)]
+        wn = ["two_matmuls", "matmul_then_scale"][(start + k) % 2]
+        oi = QUICK_OPTION_SETS[(start // 2 + k) % len(QUICK_OPTION_SETS)]
+        opts = MAPPER_OPTION_SETS[oi]
+        if tier != "quick" and k % 10 == 9:
+            an, wn, opts = "toll_under_buf", "matmul_then_scale", MAPPER_OPTION_SETS[3]  # also lowers the outermost memory (slow elsewhere)
+        bounds = {v: rnd.choice([1, 2, 2] if tier == "quick" else [1, 2, 2, 3]) for v in _workload_vars(wn)}
+        yield _fixed_mapper_case(rnd, an, wn, bounds, opts, None)
+
+
+# template-level part: (architecture with a Toll below at least two Memories, single-Einsum workload, mapper settings,
+# number of pmapping templates seen on the unchanged tree (only used to spread the quick sample), quick sample size)
+# and the stride of the thorough sweep (1: every template)
+TEMPLATE_SWEEPS = [
+    ("toll_below_two", "one_matvec", {"force_memory_hierarchy_order": False}, 90, 6, 1),
+    ("two_tolls_below_two", "one_matvec", {"force_memory_hierarchy_order": False}, 90, 3, 1),
+    ("loose_mid", "one_matmul", {}, 66, 3, 2),
+    ("three_levels", "one_matvec", {}, 66, 2, 3),
+    ("may_toll_below_two", "one_matvec", {"force_memory_hierarchy_order": False}, 90, 0, 3),
+    ("toll_below_two_keep", "one_matvec", {"force_memory_hierarchy_order": False}, 90, 0, 3),
+    ("toll_below_two", "one_matvec", {"force_memory_hierarchy_order": False, "_can_lower_outermost_memory": True}, 90, 0, 4),
+]
+TEMPLATE_LIMIT = 600  # a sweep stops at the first index for which nothing is returned, at the latest here
+
+
+def _template_indices(rnd, tier, n_est, n_quick, k):
+    if tier != "quick":
+        return None  # the whole range (with the stride of the sweep)
+    if n_quick == 0:
+        return []
+    # spread over the range, the upper third (where the node orders differ most from the architecture order) twice as dense
+    lo = [rnd.randrange(0, max(1, 2 * n_est // 3)) for _ in range(n_quick - (n_quick + 1) // 2)]
+    hi = [rnd.randrange(2 * n_est // 3, n_est) for _ in range((n_quick + 1) // 2)]
+    return sorted(set(lo + hi))
+
+
 def _flat_nodes(real_nodes):
     """Real mapping nodes of one Einsum -> the flat form used by the walk (reservations dropped)."""
     mp = []
@@ -939,7 +1023,8 @@ def _sweep(p, tier, n_random, n_mapper):
     rnd = random.Random(seed * 1000003 + (17 if tier == "quick" else 29))
     seen, samples = set(), []
     st = {"evaluations": 0, "rejected": 0, "core": 0, "random": 0, "holder": 0, "mapper_calls": 0, "mapper_rows": 0, "mapper_reads_compared": 0, "toll_tensor_checks": 0,
-          "nonzero_required": 0, "zero_required": 0, "outside_family": 0, "compared_without_toll": 0}
+          "nonzero_required": 0, "zero_required": 0, "outside_family": 0, "compared_without_toll": 0, "option_calls": 0, "template_calls": 0, "template_rows": 0, "template_reads_compared": 0,
+          "template_none": 0}
 
     def counters():
         return {"evaluations": st["evaluations"], "distinct": len(seen), "known_finding_hits": 0, "stats": dict(st)}
@@ -997,6 +1082,47 @@ def _sweep(p, tier, n_random, n_mapper):
             bad.update(counters())
             return bad
 
+    # 3b. mapper with the settings that change the order of storage / Toll nodes
+    rnd2 = random.Random(seed * 7919 + (41 if tier == "quick" else 43))  # (own stream: the other parts see the same inputs as before)
+    for mc in _option_cases(rnd2, tier):
+        bad, rows, compared = _check_mapper_case(mc)
+        st["option_calls"] += 1
+        st["mapper_rows"] += max(rows, 0)
+        st["mapper_reads_compared"] += compared
+        st["evaluations"] += 1
+        seen.add(repr(mc))
+        if st["option_calls"] <= 1:
+            samples.append(f"mapper {mc['options']}: {mc['workload_name']} {mc['bounds']} on {mc['arch_name']} ({rows} mappings returned)")
+        if bad:
+            bad.update(counters())
+            return bad
+
+    # 3c. template level: one pmapping template at a time (spec.mapper._only_output_pmapping_with_index)
+    for k, (an, wn, opts, n_est, n_quick, stride) in enumerate(TEMPLATE_SWEEPS):
+        idxs = _template_indices(rnd2, tier, n_est, n_quick, k)
+        bounds = {v: 2 for v in _workload_vars(wn)}
+        it = range((seed + k) % stride, TEMPLATE_LIMIT, stride) if idxs is None else idxs
+        done = 0
+        for i in it:
+            mc = _fixed_mapper_case(rnd2, an, wn, bounds, opts, i)
+            bad, rows, compared = _check_mapper_case(mc)
+            if rows == -1:
+                st["template_none"] += 1
+                if idxs is None:
+                    break
+                continue
+            done += 1
+            st["template_calls"] += 1
+            st["template_rows"] += rows
+            st["template_reads_compared"] += compared
+            st["evaluations"] += 1
+            seen.add(repr(mc))
+            if bad:
+                bad.update(counters())
+                return bad
+        if done and len(samples) < 8:
+            samples.append(f"templates {an} / {wn} / {opts}: {done} template(s) evaluated one at a time" + ("" if idxs is not None else f" (every {stride}. up to the last)"))
+
     # 4. seeded random mappings
     for i in range(n_random):
         case = _rand_case(rnd, tier)
@@ -1021,7 +1147,15 @@ def _sweep(p, tier, n_random, n_mapper):
         f"the walk of that returned mapping). This run: {st['holder']} two-Einsum mappings, {st['core']} core + {st['random']} random model mappings ({st['rejected']} generated "
         f"mappings rejected by evaluate_mapping with and without the Toll and not counted), {st['nonzero_required'] + st['zero_required']} (Toll, tensor) read counts compared "
         f"({st['nonzero_required']} non-zero, {st['zero_required']} zero), {st['mapper_calls']} mapper calls returning {st['mapper_rows']} mappings with "
-        f"{st['mapper_reads_compared']} (Einsum, Toll, tensor) read counts compared. "
+        f"{st['mapper_reads_compared']} (Einsum, Toll, tensor) read counts compared ({st['option_calls']} of the calls with mapper settings that change the order of storage / Toll nodes: "
+        "force_memory_hierarchy_order off (globally / per component), prioritize_reuse_of_unfused_tensors, _let_non_intermediate_tensors_respawn_in_backing_storage, explore_loop_orders off, "
+        "_timeloop_style_even, max_fused_loops 0" + ("" if tier == "quick" else ", _can_lower_outermost_memory") + "). "
+        f"TEMPLATE LEVEL: {st['template_calls']} single pmapping templates (spec.mapper._only_output_pmapping_with_index = i, so that a template cannot lose against a better one) of a 2x2(x2) "
+        "matvec / matmul on architectures with a Toll below two Memories (Main > Mid > Toll(s) > Buf, Main > Toll > Mid > Toll > Buf), mostly with force_memory_hierarchy_order off, "
+        f"returning {st['template_rows']} mappings with {st['template_reads_compared']} (Toll, tensor) read counts compared"
+        + (" (every template of two sweeps, every 2nd-4th of five more)" if tier != "quick" else " (a seeded sample of the templates)") + ". "
+        "In EVERY mapping returned by the mapper, additionally: every Toll node of a tensor sits below all holders of that tensor that are above the Toll in the architecture and above all "
+        "holders of it that are below, and a Toll declared {keep: All} has a node for every tensor that a Memory above it holds. "
         f"excluded: {st['outside_family']} (Toll, tensor) read counts whose loop nest above the holder below the Toll has an uneven tile together with another loop over the same "
         "variable (the model's iteration counts for such nests are approximate for every holder, with or without a Toll; write actions and occupancy are still checked there). "
         f"The comparison of the Memory usage columns with the Toll-free mapping was made for the {st['compared_without_toll']} model mappings in which every Toll node sits directly "
@@ -1033,7 +1167,8 @@ def _sweep(p, tier, n_random, n_mapper):
         "bound": (f"single Einsum (matmul / matvec / outer product), rank-variable bounds 1..{bmax}, <= 2 extra tile levels per variable (even, uneven and single-iteration tiles), "
                   "1-2 Tolls (one; two stacked; Toll-Memory-Toll), per-tensor holder choice and position, directions up/down/up_and_down as string or per-tensor dictionary, "
                   "values-per-action given as values_per_action / bits_per_action on the component or on the action or left at the default, bits per value 4/8/16; "
-                  "mapper: 2-3 Einsum chains with bounds <= " + ("3" if tier == "quick" else "4") + ", no spatial fan-out"),
+                  "mapper: 2-3 Einsum chains with bounds <= " + ("3" if tier == "quick" else "4") + ", no spatial fan-out; mapper settings from a list of 10 combinations; template level: "
+                  "single Einsum, all bounds 2, " + ("a seeded sample of 14 template indices over 4 (architecture, settings) pairs" if tier == "quick" else "every template of 2 (architecture, settings) pairs and every 2nd-4th of 5 more")),
         "exhaustive": True, "samples": samples,
         "assumptions": ["single-variable rank projections only (tiles are equal or disjoint, no sliding windows)", "no spatial fan-out between the Memories"],
     }
